@@ -181,8 +181,16 @@ def invalidate(draw, text):
 @st.composite
 def positive(draw, max_feats):
     model = draw(S.model_specs(PROFILE, 1, max_feats))
+    over = False
+    if draw(st.integers(0, 7)) == 0:
+        # the language admits an upper bound above the number of listed children; it is read as written
+        rels = [r for r, _ in build.iter_rels(model["root"]) if r["max"] != -1]
+        if rels:
+            r = draw(st.sampled_from(rels))
+            r["max"] = len(r["children"]) + draw(st.integers(1, 12))
+            over = True
     text, labels = emit_uvl.emit(draw, model)
-    return {"model": model, "text": text, "labels": labels, "expect": "model"}
+    return {"model": model, "text": text, "labels": labels + (["upper-bound-above-children"] if over else []), "expect": "model"}
 
 
 @st.composite
